@@ -708,3 +708,13 @@ func ruleMUT2Compile(p *Program) *RuleResult {
 	r.floor("functions_compile", 100)
 	return r
 }
+
+// GLB6: no function of the repository (outside package initialisers) uses a
+// package-level mutable container or synchronisation object: no caches, pools
+// or memo tables through which one evaluation or compilation could influence
+// another.
+func ruleGLB6(p *Program) *RuleResult {
+	r0 := newResult("GLB6")
+	fns := apiRepoFuncs(p, r0)
+	return purityInventoryOf(p, "GLB6", "api|no shared mutable state", "API-reachable repository", 250, []string{"fhirpath/", "internal/"}, fns)
+}
